@@ -82,15 +82,16 @@ Definition attempt_of_kind (kind : N) : option attempt :=
   | 5 => Some (AtFail false true)     (* handshake timeout *)
   | 6 => Some (AtFail true false)     (* protocol violation by the server *)
   | 7 => Some (AtFail true true)      (* stream request timeout / loss *)
+  | 8 => Some (AtFail false true)     (* connection refused (not observable by the fake server) *)
   | _ => None                          (* healthy *)
   end.
 
-(* (attempts up to the first healthy one, number of local connections opened meanwhile) *)
-Fixpoint parse_script (c : list N) : list (attempt * N) :=
+(* (attempts up to the first healthy one, number of local connections opened meanwhile, observed by the server?) *)
+Fixpoint parse_script (c : list N) : list (attempt * N * bool) :=
   match c with
   | kind :: _ :: opens :: r =>
       match attempt_of_kind kind with
-      | Some a => (a, opens) :: parse_script r
+      | Some a => (a, opens, negb (kind =? 8)) :: parse_script r
       | None => []
       end
   | _ => []
@@ -99,15 +100,36 @@ Fixpoint parse_script (c : list N) : list (attempt * N) :=
 Definition final_code (f : final) : list N :=
   match f with FOk => [0; 0] | FFatal k => [1; k + 1] | FGiveUp k => [2; k + 1] | FRunning => [3; 0] | FPanic => [4; 0] end.
 
+(* the gaps the fake server can measure: from one observed failure (or the client's start, if the
+   first attempts are refused) to the next accepted connection; refused attempts in between add
+   their delays to the gap *)
+Fixpoint gaps (obs : list bool) (ds : list N) (acc : option N) : list N :=
+  match obs with
+  | [] => match acc with Some a => [a] | None => [] end
+  | o :: obs' =>
+      let emit := if o then match acc with Some a => [a] | None => [] end else [] in
+      match ds with
+      | d :: ds' => emit ++ gaps obs' ds' (Some (if o then d else match acc with Some a => a + d | None => d end))
+      | [] => emit
+      end
+  end.
+
+Definition count_true (l : list bool) : N := fold_right (fun (b : bool) (a : N) => if b then a + 1 else a) 0 l.
+
 Definition run_retry (c : list N) : list N :=
   match c with
   | max_ms :: max_count :: _ :: _ :: r =>
       let sc := parse_script r in
-      let '(ds, f) := retry_loop (client_backoff max_ms max_count) (map fst sc) 0 in
+      let '(ds, f) := retry_loop (client_backoff max_ms max_count) (map (fun x : attempt * N * bool => fst (fst x)) sc) 0 in
       let executed := match f with FRunning => length sc | FFatal k | FGiveUp k => (N.to_nat k + 1)%nat | _ => 0%nat end in
-      let nloc := fold_right N.add 0 (map snd (firstn executed sc)) in
-      let fc := match f with FRunning => [3; N.of_nat (length sc) + 1] | _ => final_code f end in
-      N.of_nat (length ds) :: map (fun d => d / 1000000) ds ++ fc ++
+      let done := firstn executed sc in
+      let nloc := fold_right N.add 0 (map (fun x : attempt * N * bool => snd (fst x)) done) in
+      let obs := map (fun x : attempt * N * bool => snd x) done in
+      let gs := gaps obs (map (fun d => d / 1000000) ds) None in
+      (* with FRunning the [] case of gaps has emitted the gap before the final healthy connection *)
+      let accepted := count_true obs + match f with FRunning => 1 | _ => 0 end in
+      let fc := match f with FRunning => 3 | FFatal _ => 1 | FGiveUp _ => 2 | FOk => 0 | FPanic => 4 end in
+      N.of_nat (length gs) :: gs ++ [fc; accepted] ++
       nloc :: repeat (match f with FRunning => 1 | _ => 0 end) (N.to_nat nloc)
   | _ => MALFORMED
   end.
